@@ -395,6 +395,57 @@ def lin(e, env=None):
     return X.linear(X.PyLower(env=env).lower(e))
 
 
+def _fold_ports(L, repo, ci, init, fn):
+    from consteval import Ev, Unknown, Raised, Opaque, Instance
+    GEN = Opaque("clock generator")
+    n = 0
+    for base in (5700, 6700, 5800, 1024):
+        for idx in (0, 1, 2, 7, 12):
+            for gen in (None, GEN):
+                kw = {}
+                if idx:
+                    kw["child_idx"] = idx
+                if gen is not None:
+                    kw["clck_gen"] = gen
+                made = []
+
+                def mk(name, made=made):
+                    def h(a):
+                        made.append((name, tuple(a)))
+                        return Opaque(name)
+                    return h
+                e = Ev(repo, ci.mod, env={"bind_addr": "BIND", "remote_addr": "REMOTE", "base_port": base, "kwargs": dict(kw)}, self_cls=ci)
+                e.hooks = {"DATAInterface": mk("DATA"), "CTRLInterfaceTRX": mk("CTRL"), "UDPLink": mk("CLCK"),
+                           "TRXList": lambda a: Opaque("TRXList"), "threading.Lock": lambda a: Opaque("lock"),
+                           "threading.RLock": lambda a: Opaque("lock"), "Lock": lambda a: Opaque("lock")}
+                try:
+                    e.run_block(init.body)
+                    got = sorted(made)
+                except Unknown:
+                    return False
+                except Raised as ex:
+                    got = "raises %s" % ex.cls
+                n += 1
+                cfgtxt = "base port %d, child index %d, %s clock generator" % (base, idx, "with" if gen is not None else "without")
+                if gen is not None and idx > 0:
+                    L.ob("C12.R5", F, fn, "%s: a child transceiver with its own clock is refused" % cfgtxt, "raises", got,
+                         isinstance(got, str) and got.startswith("raises"), init.lineno)
+                    continue
+                want = [("CTRL", ("<self>", "REMOTE", base + 2 * idx + 101, "BIND", base + 2 * idx + 1)),
+                        ("DATA", ("REMOTE", base + 2 * idx + 102, "BIND", base + 2 * idx + 2))]
+                if gen is not None:
+                    want = [("CLCK", ("REMOTE", base + 100, "BIND", base))] + want
+                norm = got
+                if isinstance(got, list):
+                    norm = [(k, tuple("<self>" if isinstance(x, Instance) else x for x in a)) for k, a in got]
+                L.require("C12.R5", F, fn, "%s: interfaces created as (remote address, remote port, bind address, bind port)" % cfgtxt,
+                          sorted(want), norm, line=init.lineno)
+                if isinstance(got, list):
+                    L.require("C12.R5", F, fn, "%s: a new transceiver is not running" % cfgtxt, False, e.env.get("self.running"), line=init.lineno)
+    L.floor("C12.R5", "constructor configurations folded", n, 30)
+    return True
+
+
 def r5_ports(L, repo):
     ci, init = repo.need_method("transceiver", "Transceiver", "__init__")
     fn = "Transceiver.__init__"
@@ -430,6 +481,13 @@ def r5_ports(L, repo):
             and len(params(m4)) == 1 + skip
         L.ob("C12.R5", rel(modn), cls + ".__init__", "link arguments are passed through to the base constructor unchanged",
              "Base.__init__(self, *args)", [canon(c) for c in base], ok, m4.lineno)
+    # (a) the port plan decided by folding the constructor for witness configurations (base ports, child indexes,
+    # with / without a clock generator), interface constructors as capturing oracles
+    folded = _fold_ports(L, repo, ci, init, fn)
+    L.extra["c12_port_plan_folded"] = folded
+    if folded:
+        return
+    # (b) fallback: structural rules on the constructor's source
     # the constructor refuses invalid configurations by raising; what follows is
     # guarded by the negation of those tests, which is not a condition on creation
     refuse = set()
